@@ -27,7 +27,7 @@ CONSTANTS MaxChoices,     \* bound on choice points for exhaustive alternative e
 \* alternatives tables for LdapMsg's encoder (a cfg substitutes e.g. LenFormMap <- Len2)
 Len2 == <<0, 3>>      Len5 == <<0, 1, 2, 3, 4>>
 Bool2 == <<0, 1>>     Bool4 == <<0, 1, 2, 3>>
-Trail2 == <<0, 2>>    Trail5 == <<0, 1, 2, 3, 4, 5, 6, 7, 8>>
+Trail2 == <<0, 2>>    Trail5 == <<0, 1, 2, 3, 4, 5, 6, 7, 8, 9, 10>>
 
 \* ---- octet string pool -----------------------------------------------------------
 Rep(x, n) == [j \in 1..n |-> x]
@@ -184,7 +184,7 @@ Choose == /\ phase = "alt"
 
 \* uniform styles: one length form, one TRUE octet, one trailer for the whole message
 Style == /\ phase = "start" /\ Styles
-         /\ \E lf \in 0..4, bo \in 0..3, tr \in 0..8 :
+         /\ \E lf \in 0..4, bo \in 0..3, tr \in 0..10 :
                /\ ch' = <<lf, bo, tr>>
                /\ PrintT(<<"ALT", ToJson([mi |-> mi, xd |-> xd, ch |-> <<lf, bo, tr>>, m |-> Msgs[mi],
                                           enc |-> EncStyleNode(Tree(Msgs[mi], xd), lf, bo, tr)])>>)
